@@ -326,7 +326,21 @@ func (fr *Frame) execBody(st0 *State, reach0 string) (*State, []Term, string) {
 	if len(fn.Blocks) == 0 {
 		g.fail("function %s has no body", fn)
 	}
+	if fr.parent == nil && fr.contract != nil {
+		for _, gs := range fr.contract.GhostSets {
+			g.getGhost(st0, gs.Name, "Nil") // materialise the ghost heap so that old() sees the same symbol
+		}
+	}
 	fr.entrySt = st0.clone()
+	if fr.parent == nil && fr.contract != nil {
+		// ghost statements executed on entry
+		for _, gs := range fr.contract.GhostSets {
+			env := fr.baseEnv(st0)
+			env.old = fr.entrySt
+			t, _ := env.tr(gs.Init)
+			g.setGhost(st0, gs.Name, "Nil", t.S)
+		}
+	}
 	for _, b := range fr.order {
 		fr.execBlock(b, st0, reach0)
 	}
@@ -501,6 +515,22 @@ func (fr *Frame) loopEnv(li *loopInfo, st *State, phiVal func(*ssa.Phi) Term, gh
 			if name == "$i" && phi.Comment == "rangeindex" {
 				// number of completed iterations of a range-over-slice loop
 				return Term{"(+ " + phiVal(phi).S + " 1)", SInt}, mathInt, true
+			}
+		}
+		if name == "$visited" {
+			// set of keys already yielded by the map range of this loop
+			for _, ins := range li.header.Instrs {
+				nx, ok := ins.(*ssa.Next)
+				if !ok {
+					continue
+				}
+				rng, ok := nx.Iter.(*ssa.Range)
+				if !ok || fr.ranges[rng] == nil {
+					continue
+				}
+				mv := fr.g.mapHeaps(fr.ranges[rng].mt)
+				vis := sel(fr.g.heap(st, "Rvisited_"+sortKey(mv.keySort), mv.domSort).S, fr.val(rng).S)
+				return Term{vis, mv.domSort}, Ty{Spec: mv.domSort}, true
 			}
 		}
 		return fr.resolveLocal(name, li.header, st)
